@@ -238,6 +238,7 @@ Section Perform.
          result_matrix X A check answers gin = Some R
          /\ Permutation sigma (seq 0 n)
          /\ all_some (map (pick R) (combine (seq 0 n) sigma)) = Some rs
+         /\ ungroupify gm rs = Some es
          /\ (forall t grp r k i, nth_error gm t = Some grp -> nth_error rs t = Some r -> nth_error grp k = Some i ->
                exists e, nth_error (entries_of r) k = Some e /\ nth_error es i = Some e)
          /\ forall tau rs', Permutation tau (seq 0 n) ->
@@ -257,7 +258,7 @@ Section Perform.
     assert (Lg : length gin = n) by (unfold gin; apply groupify_length).
     destruct (unordered_optimal X A check solve Hopt Hrow n answers gin rs Hn La' Lg Hs)
       as [R [sigma [HR [Hp [Hsel [Hl Hmax]]]]]].
-    exists R, sigma, rs. repeat split; try assumption.
+    exists R, sigma, rs. split; [exact HR|]. split; [exact Hp|]. split; [exact Hsel|]. split; [exact Hu|]. split; [| exact Hmax].
     intros t grp r k i Hg Hr Hi. exact (Hb t grp r k i Hg Hr Hi).
   Qed.
 End Perform.
@@ -344,7 +345,7 @@ Proof.
     { intros x Hx. apply filter_In_total in Hx. destruct Hx as [Hin Heq]. split; [exact Hin|].
       intros r Hr. rewrite Heq. apply Hge. apply in_map. exact Hr. }
     destruct (filter (fun r => Qeq_bool (total r) mx) all) as [|b0 [|b1 best']] eqn:Ef.
-    + simpl in H. discriminate.
+    + destruct (first_true _ 0) as [i|]; [destruct i|]; discriminate.
     + apply Some_inj in H. subst. apply Hbest. left. reflexivity.
     + destruct (first_true _ 0) as [i|]; [| discriminate].
       apply nth_error_In in H. apply Hbest. exact H.
@@ -497,4 +498,13 @@ Proof.
   intros item solve f g a xs out H. unfold lg_call in H.
   destruct (run item solve f g a (GMany xs) None) as [[e|es]|]; try discriminate.
   apply Some_inj in H. subst. eauto.
+Qed.
+
+Theorem lg_call_spec' : forall item solve f g a xs out,
+  lg_call item solve f g a xs = Some out ->
+  exists es, run item solve f g a (GMany xs) None = Some (GMany es) /\ out = map fmt_entry es
+             /\ forall e, e_ok (fmt_entry e) = e_ok e /\ e_grade (fmt_entry e) = e_grade e.
+Proof.
+  intros item solve f g a xs out H. destruct (lg_call_spec _ _ _ _ _ _ _ H) as [es [H1 H2]].
+  exists es. split; [exact H1|]. split; [exact H2 | exact fmt_entry_spec].
 Qed.
